@@ -156,8 +156,9 @@ def leaf_hash_runs(chk, exe):
         for script in (b"\x51", bytes([OP["NOP"]]) * 300 + b"\x51"):
             spk, sc, ctrl = build(rng, rng.choice([0, 1, 3]), ["rnd"], script=script, leafver=lv)
             j = mkjob(rng, "x", spk, sc, ctrl)
-            r = ptydrv.run_cli([exe, "--tx=" + j.txctx["tx"], "--txin=" + j.txctx["txin"]], stdin_tty=True, stdout_tty=True, timeout=10, stdin_data=b"quit\n")
-            m = re.search(r"- k\s+= ([0-9a-f]{64})\s+\(tap leaf hash\)", r["stdout"] + r["stderr"])
+            R = ptydrv.Repl([exe, "--tx=" + j.txctx["tx"], "--txin=" + j.txctx["txin"]], timeout=15)
+            m = re.search(r"- k\s+= ([0-9a-f]{64})\s+\(tap leaf hash\)", R.banner + R.err.decode(errors="replace"))
+            R.close()
             ev = {"e": "LeafShown", "leafver": lv, "script": sc.hex(), "shown": m.group(1) if m else ""}
             rec.append((RecJob("LeafShown", ev), [ev]))
     return rec
